@@ -9,6 +9,7 @@ import Proofs.ProbingBuildChainStep
 import Proofs.ProbingBuildChainSem
 import Proofs.ArpaOKCheck
 import Proofs.ProbingRestFold
+import Proofs.ProbingRestScore
 import Properties.C03
 /-! C03/C01 — the probing *builder* inside the model (`Model/ProbingBuild.lean` = lm/search_hashed.cc ReadNGrams,
 FindLower, AdjustLower, MarkLower, activate, unigram sign fix, missing-`<unk>` fix-up).
@@ -454,5 +455,71 @@ theorem restOf_is_max (a : Arpa) (S : List Key) (k : Key) :
     val a k ≤ restOf a S k ∧ (∀ k' ∈ S, k <+: k' → val a k' ≤ restOf a S k) ∧
     (∀ B, val a k ≤ B → (∀ k' ∈ S, k <+: k' → val a k' ≤ B) → restOf a S k ≤ B) :=
   ⟨restOf_ge_self a S k, fun k' hk hp => restOf_ge_mem a S k k' hk hp, fun B h0 h => restOf_le a S k B h0 h⟩
+
+/-! ### REST_MAX end to end for models without blanks -/
+
+/-- **`probing_rest_build_represents_closed`** — `probing_rest_build_closed_partial` repackaged: the structure built with
+`MaxRestBuild` **represents** `Table.build a` with the rest function `R := restOf a Sf` (`Sf` = the keys of the table):
+`RepresentsR` = `Represents` with `rest = R g` in every payload (and `R [w]` for unigrams). -/
+theorem probing_rest_build_represents_closed (combine : Nat → Word → Nat) (a : Arpa) (nWords : Nat) (buckets : List Nat) (um : Rat)
+    (ok : ArpaOK' a nWords um) (hu : a.unkHallucinated = false)
+    (hcount : nWords ≤ (a.entries.filter fun p => p.1.length == 1).length)
+    (hcls : ∀ q ∈ ngramLines a, ClsC a q.1)
+    (hsorted : (ngramLines a).Pairwise (fun p q => p.1.length ≤ q.1.length))
+    (hdist : (a.entries.map (·.1)).Nodup)
+    (hinj : ∀ k k', IsKey a k → IsKey a k' → k.length = k'.length → hashOf combine k = hashOf combine k' → k = k')
+    (hcaps : ∀ m, (keysOf (foldKeys [] (ngramLines a)) m).length < capOf buckets m) :
+    ∃ s Mmid Mlong, build combine true a nWords buckets um = .ok s ∧
+      RepresentsR combine (toPLM true a.order s) (Table.build a) (restOf a (foldKeys [] (ngramLines a))) Mmid Mlong := by
+  obtain ⟨s, hb, inv, ffin⟩ := build_rest_inv_closed combine a nWords buckets um ok hu hcount hcls hsorted hdist hinj hcaps
+  obtain ⟨Mmid, Mlong, rep⟩ := representsR_of_invT combine a nWords um ok hu (capOf buckets) _ ffin s inv
+  exact ⟨s, Mmid, Mlong, hb, rep⟩
+
+/-- **`probing_rest_refines`** — a probing structure with rest costs that `RepresentsR` the table answers `FullScore` exactly
+like `KV.Left.restSearch T R`, the search over the abstract table whose `Rest()` is `R`.  C08's theorems (`extendLeft_eq`,
+`any_derivation`, `reveal_*` …) are stated over `restSearch T R` for an arbitrary `R`: with this refinement they apply to the
+built `RestProbingModel` with `R := restOf a Sf`. -/
+theorem probing_rest_refines (combine : Nat → Word → Nat) (P : KV.ProbingLM.PLM) (T : Table) (R : List Word → Rat)
+    (Mmid : Nat → Nat → Option Nat) (Mlong : Nat → Option Nat)
+    (rep : RepresentsR combine P T R Mmid Mlong) (inj : HashInjective combine T) (hN : 2 ≤ T.order) (s : State) (w : Word) :
+    (fullScore (KV.ProbingLM.search combine P) s w).1.prob = (fullScore (KV.Left.restSearch T R) s w).1.prob ∧
+    (fullScore (KV.ProbingLM.search combine P) s w).1.ngramLength = (fullScore (KV.Left.restSearch T R) s w).1.ngramLength ∧
+    (fullScore (KV.ProbingLM.search combine P) s w).1.independentLeft = (fullScore (KV.Left.restSearch T R) s w).1.independentLeft ∧
+    (fullScore (KV.ProbingLM.search combine P) s w).1.rest = (fullScore (KV.Left.restSearch T R) s w).1.rest ∧
+    (fullScore (KV.ProbingLM.search combine P) s w).2 = (fullScore (KV.Left.restSearch T R) s w).2 :=
+  fullScore_sim _ _ _ (probing_simR combine P T R Mmid Mlong rep inj hN)
+    (by show 2 ≤ P.order; rw [rep.order]; exact hN) s w
+
+/-- **`probing_rest_end_to_end_closed`** — REST_MAX end to end for models without blanks: on the structure `build … true`
+produces, `FullScore` returns the ARPA recursion as probability, and its `rest` is `restOf a Sf` of the longest matching
+n-gram `w :: ctx.take c0` (whenever that is not of the highest order, where the code returns `rest = prob`): the maximum
+of that n-gram's probability and the probabilities of all n-grams of the model that extend it to the left. -/
+theorem probing_rest_end_to_end_closed (combine : Nat → Word → Nat) (a : Arpa) (nWords : Nat) (buckets : List Nat) (um : Rat)
+    (ok : ArpaOK' a nWords um) (hu : a.unkHallucinated = false)
+    (hcount : nWords ≤ (a.entries.filter fun p => p.1.length == 1).length)
+    (hcls : ∀ q ∈ ngramLines a, ClsC a q.1)
+    (hsorted : (ngramLines a).Pairwise (fun p q => p.1.length ≤ q.1.length))
+    (hdist : (a.entries.map (·.1)).Nodup)
+    (hinj : ∀ k k', IsKey a k → IsKey a k' → k.length = k'.length → hashOf combine k = hashOf combine k' → k = k')
+    (hcaps : ∀ m, (keysOf (foldKeys [] (ngramLines a)) m).length < capOf buckets m)
+    (inj : HashInjective combine (Table.build a))
+    (h : List Word) (st : State) (sf : StateFor a h st) (w : Word) (hw : a.gram [w] ≠ none) :
+    ∃ s, build combine true a nWords buckets um = .ok s ∧
+      (fullScore (KV.ProbingLM.search combine (toPLM true a.order s)) st w).1.prob = score a h w ∧
+      ∃ c0, (fullScore (KV.ProbingLM.search combine (toPLM true a.order s)) st w).1.ngramLength = 1 + c0 ∧
+        (1 + c0 < a.order →
+          (fullScore (KV.ProbingLM.search combine (toPLM true a.order s)) st w).1.rest =
+            restOf a (foldKeys [] (ngramLines a)) (w :: (st.words.take st.length).take c0)) := by
+  obtain ⟨s, Mmid, Mlong, hb, rep⟩ := probing_rest_build_represents_closed combine a nWords buckets um ok hu hcount hcls hsorted
+    hdist hinj hcaps
+  obtain ⟨hp, hl, _, hr, _⟩ := probing_rest_refines combine _ _ _ Mmid Mlong rep inj ok.wf.order_ge st w
+  have hne : (Table.build a).lookup [w] ≠ none := by
+    rw [build_lookup_ne_none]; exact ⟨by simp, Or.inl hw⟩
+  obtain ⟨t, ht⟩ := Option.ne_none_iff_exists'.mp hne
+  obtain ⟨c0, _, hlen, _, hrest⟩ := KV.Left.fullScore_rest_spec (Table.build a) (restOf a (foldKeys [] (ngramLines a)))
+    (build_tableFor a ok.wf _).toTableOK st w t ht
+  refine ⟨s, hb, ?_, c0, by rw [hl]; exact hlen, fun hlt => by rw [hr]; exact hrest hlt⟩
+  rw [hp, (KV.Left.fullScore_sim (Table.build a) _ st w).1]
+  exact KV.C01.fullScore_prob a ok.wf (fun _ => false) h st sf w hw
 
 end KV.C03ProbingBuild
